@@ -11,6 +11,7 @@ where positions are compared), models of `Model/Scale.lean` run against the real
 -/
 import TsdateVerif.Proofs.ScaleDiscrete
 import TsdateVerif.Proofs.ScaleCount
+import TsdateVerif.Proofs.ScaleSpans
 
 namespace Tsdate.C07
 open Tsdate Tsdate.Scale
@@ -78,6 +79,27 @@ theorem mixture_prior_invariant (c : α) (hc : c ≠ 0) (means vars weights : Li
     mixtureMeanVar means vars (smul c weights) = mixtureMeanVar means vars weights :=
   mixtureMeanVar_invariant c hc means vars weights
 
+/-- **Second pass of `SpansBySamples`** (prior.py, unary nodes above the topmost coalescence, `allow_unary=True`):
+a skipped unary node borrows `tree.span · (v / node_spans[n]) / 2` for every span entry `v` of its first dated
+ancestor `n`, plus `tree.span / 2` for the local tree.  With every coordinate multiplied by `c` (entries and node
+spans of the table before the pass, the span of every visited tree) every entry of the table after the pass is
+multiplied by `c` — the borrowed weights are span *fractions* times a span — for any sequence of visits. -/
+theorem second_pass_spans_scaled (c two : α) (hc : c ≠ 0) (nodeSpans : List α)
+    (st : List (Nat × List ((Nat × Nat) × α))) (visits : List (Visit α)) :
+    secondPass two (smul c nodeSpans) (scaleTable c st) (visits.map (scaleVisit c))
+      = scaleTable c (secondPass two nodeSpans st visits) :=
+  secondPass_scale c two hc nodeSpans st visits
+
+/-- **…hence the mixture prior of every node after the second pass is unchanged**: whatever the
+conditional-coalescent mean and variance attached to an entry `(total tips, descendant tips)` are, the
+span-weighted mixture mean and variance of node `u` are the same at both coordinate scales. -/
+theorem second_pass_weights_invariant (c two : α) (hc : c ≠ 0) (meanOf varOf : Nat × Nat → α)
+    (nodeSpans : List α) (st : List (Nat × List ((Nat × Nat) × α))) (visits : List (Visit α)) (u : Nat) :
+    mixtureKeyed meanOf varOf
+        (spansOf (secondPass two (smul c nodeSpans) (scaleTable c st) (visits.map (scaleVisit c))) u)
+      = mixtureKeyed meanOf varOf (spansOf (secondPass two nodeSpans st visits) u) := by
+  rw [secondPass_scale c two hc, spansOf_scale, mixtureKeyed_scale c hc]
+
 /-- **The whole unit-carrying view of a discrete run is unchanged**: time grid, prior rows, both
 likelihood tables of every edge, span fractions, root fractions, maximization Poisson values. -/
 theorem discrete_view_invariant {β : Type} (two c : α) (hc : c ≠ 0) (pmf : Nat → α → β)
@@ -113,5 +135,12 @@ def C07_statement {I O : Type} (scaleIn : α → I → I) (date : I → O) : Pro
 example : edgeLikelihoods [((2 : Rat), 100), (0, 50)] 3 = [(2, 300), (0, 150)] := by decide +kernel
 example : nodeSpan [(1, 4, (10 : Rat)), (0, 4, 5), (2, 5, 7)] [(4, 3)] 4 = 18 := by decide +kernel
 example : nodeSpan [(1, 4, (40 : Rat)), (0, 4, 20), (2, 5, 28)] [(4, 12)] 4 = 4 * 18 := by decide +kernel
+
+-- the demo shape of seeded change C07-a: node 7 (no spans yet) borrows from node 8, coalescent with 3 of 4
+-- tips over a span of 4, in a tree of span 6 with 4 tips of which 4 are below node 7
+example : secondPass (2 : Rat) [0, 0, 0, 0, 0, 0, 0, 0, 4] [(8, [((4, 3), 4)])] [⟨7, 8, 6, 4, 4⟩]
+    = [(8, [((4, 3), 4)]), (7, [((4, 3), 3), ((4, 4), 3)])] := by decide +kernel
+example : secondPass (2 : Rat) [0, 0, 0, 0, 0, 0, 0, 0, 40] [(8, [((4, 3), 40)])] [⟨7, 8, 60, 4, 4⟩]
+    = [(8, [((4, 3), 40)]), (7, [((4, 3), 30), ((4, 4), 30)])] := by decide +kernel
 
 end Tsdate.C07
